@@ -34,7 +34,7 @@ def run_one(e, props):
             return dict(id=e["id"], status="nobuild", detail=b.stderr[-400:])
         out = {}
         for prop in props:
-            c = subprocess.run([os.path.join(HERE, "bin", "klogsa"), "-repo", d, "-prop", prop, "-no-evidence",
+            c = subprocess.run([os.environ.get("KLOGSA_BIN") or os.path.join(HERE, "bin", "klogsa"), "-repo", d, "-prop", prop, "-no-evidence",
                                 "-known", os.path.join(HERE, "known_findings.json")],
                                env=ENV, capture_output=True, text=True)
             lines = [l for l in c.stdout.splitlines() if l.startswith("  violated") or l.startswith("  undecided")]
